@@ -412,9 +412,10 @@ def cgBodyPlan (u : Update) : Plan :=
 structure LoopShape where
   /-- `for _ in range(self.num_iters)` -/
   rangeNumIters : Bool
-  /-- number of body statements before the `if … : break` -/
-  breakAfter : Nat
-  /-- the test is `rk_norm_sq_new.abs().sqrt().mean() < self.tol` -/
+  /-- which loop-carried variables (0 = `x`, 1 = `rk_old`, 2 = `pk`, 3 = `rk_norm_sq_old`) are updated before the
+  `if … : break`: only `x` -/
+  carriedBeforeBreak : List Nat
+  /-- the test is `<new squared residual norm>.abs().sqrt().mean() < self.tol` -/
   breakTestOnRrNew : Bool
   /-- `x` is assigned before the break and `return x` follows the loop -/
   returnsX : Bool
@@ -428,7 +429,7 @@ structure LoopShape where
 deriving DecidableEq, Repr
 
 def cgLoopShape : LoopShape :=
-  { rangeNumIters := true, breakAfter := 5, breakTestOnRrNew := true, returnsX := true,
+  { rangeNumIters := true, carriedBeforeBreak := [0], breakTestOnRrNew := true, returnsX := true,
     branches := [.FR, .PRP, .DY, .BAN], exits := 1, loops := 1 }
 
 /-! ## State that outlives a call (phase 3)
@@ -478,71 +479,69 @@ def dcBlockExits : List (String × Nat × Bool) :=
 def blockShapeOk (exits : List (String × Nat × Bool)) (inplace : List (String × String)) : Bool :=
   exits.map (·.1) == dcBlockExits.map (·.1) && exits.all (fun e => e.2.1 == 1 && e.2.2) && inplace.isEmpty
 
-/-- every branch / loop / comprehension of the functions reachable from `MRILogLikelihood.forward` and `ConjGrad.forward`
-(parameters numbered): the default handling of the scaling, the `sensitivity_map is not None` guard, the one loop of `cg`
-with its tolerance test and the update-type chain, the layout-only comprehension.  In particular NO branch on
-`self.training`, on a shape or a coil count, and no loop over coils or chunks. -/
+/-- the branches / loops / comprehensions the functions reachable from `MRILogLikelihood.forward` and `ConjGrad.forward` MAY
+contain (owning class, kind, what is tested): the default handling of an optional argument, the one loop of `cg` with its
+`break` and the dispatch on the update type, the layout-only comprehension.  NOT among them: a branch on `self.training`,
+on a shape or a coil count, a loop over coils or chunks.  Helper extraction, either polarity of an `is None` test, a removed
+no-op branch and hoisted sub-expressions leave the table inside this set. -/
 def dcBlockControl : List (String × String × String) :=
-  [("MRILogLikelihood.forward", "If", "arg5 is not None"),
-   ("MRILogLikelihood.forward", "If", "arg3 is not None"),
-   ("ConjGrad.cg", "For", "range(arg0.num_iters)"),
-   ("ConjGrad.cg", "If", "rk_norm_sq_new.abs().sqrt().mean() < arg0.tol"),
-   ("ConjGrad.cg", "If", "arg0.bk_update_type == 'FR'"),
-   ("ConjGrad.cg", "If", "arg0.bk_update_type == 'PRP'"),
-   ("ConjGrad.cg", "Comp", "range(len(arg1.shape[1:]) - 1)"),
-   ("ConjGrad.cg", "If", "arg0.bk_update_type == 'DY'")]
+  [("MRILogLikelihood", "If", "optional argument given"),
+   ("ConjGrad", "For", "range(arg0.num_iters)"),
+   ("ConjGrad", "If", "break"),
+   ("ConjGrad", "If", "arg0.bk_update_type == 'FR'"),
+   ("ConjGrad", "If", "arg0.bk_update_type == 'PRP'"),
+   ("ConjGrad", "Comp", "range(len(arg1.shape[1:]) - 1)"),
+   ("ConjGrad", "If", "arg0.bk_update_type == 'DY'")]
 
-/-- the loops and the mode- / shape-dependent branches of the other data-consistency classes as they are now (a new
-chunked loop, a new `if self.training` / `if x.shape[...] > k` path changes this table) -/
+/-- the loops and the mode- / shape-dependent branches the other data-consistency classes may contain (as they are now; a new
+chunked loop, a new `if self.training` / `if x.shape[...] > k` path is not among them) -/
 def dcSiteControl : List (String × String × String) :=
-  [("RIM.forward", "For", "range(arg0.length)"),
-   ("RIM.forward", "If", "not arg0.training"),
-   ("RIM.forward", "If", "arg0.training or cell_idx == arg0.length - 1"),
-   ("ConjGradNet.forward", "For", "range(arg0.num_steps)"),
-   ("RIMBlock.forward", "For", "range(arg0.time_steps)"),
-   ("RIMBlock.forward", "For", "enumerate(arg0.layers)"),
-   ("CIRIM.forward", "For", "enumerate(arg0.block_list)"),
-   ("EndToEndVarNetBlock.forward", "Comp", "torch.split(regularization_term, 2, arg0._complex_dim)"),
-   ("EndToEndVarNetBlock.forward", "Comp", "torch.split(arg1, 2, arg0._complex_dim)"),
-   ("EndToEndVarNet.forward", "For", "arg0.layers_list"),
-   ("RecurrentVarNet.forward", "For", "range(arg0.num_steps)"),
-   ("VSharpNet.forward", "For", "range(arg0.num_steps)"),
-   ("VSharpNet.forward", "For", "range(arg0.num_steps_dc_gd)"),
-   ("VSharpNet3D.forward", "For", "range(arg0.num_steps)"),
-   ("VSharpNet3D.forward", "For", "range(arg0.num_steps_dc_gd)"),
-   ("JointICNet.forward", "For", "range(arg0.num_iter)"),
-   ("JointICNet._compute_model_per_coil", "For", "range(arg2.size(arg0._coil_dim))"),
-   ("IterDualNet.forward", "For", "range(arg0.num_iter)"),
-   ("IterDualNet._compute_model_per_coil", "For", "range(arg2.size(arg0._coil_dim))"),
-   ("LPDNet.forward", "For", "range(arg0.num_iter)"),
-   ("CrossDomainNetwork.forward", "For", "arg0.domain_sequence"),
-   ("CrossDomainNetwork.kspace_correction", "Comp", "torch.split(arg2, 2, arg0._complex_dim)"),
-   ("CrossDomainNetwork.image_correction", "Comp", "torch.split(arg3, 2, arg0._complex_dim)"),
-   ("MRIVarSplitNet.forward", "For", "range(arg0.num_steps_reg)"),
-   ("MRIVarSplitNet.forward", "For", "range(arg0.num_steps_dc)"),
-   ("MRIVarSplitNet.compute_model_per_coil", "For", "range(arg2.size(arg0._coil_dim))"),
-   ("KIKINet.forward", "For", "range(arg0.num_iter)"),
-   ("SSLMRIModelEngine._do_iteration", "IfExp", "arg0.model.training"),
-   ("SSLMRIModelEngine._do_iteration", "If", "arg0.model.training"),
-   ("MRIModelEngine.compute_sensitivity_map", "If", "arg0.ndim == 2"),
-   ("MRIModelEngine.compute_sensitivity_map", "IfExp", "arg0.ndim == 2"),
-   ("MRIModelEngine.compute_sensitivity_map", "Comp", "range(arg1.shape[3])"),
-   ("MRIModelEngine.compute_loss_on_data", "For", "arg1.items()"),
-   ("MRIModelEngine.compute_model_per_coil", "For", "range(arg2.size(arg0._coil_dim))"),
-   ("JSSLMRIModelEngine._do_iteration", "If", "is_ssl and arg0.model.training"),
-   ("JSSLMRIModelEngine._do_iteration", "If", "arg0.model.training and is_ssl"),
-   ("JSSLMRIModelEngine._do_iteration", "If", "arg0.model.training"),
-   ("JSSLMRIModelEngine._do_iteration", "IfExp", "arg0.model.training"),
-   ("VSharpNetSSLEngine._do_iteration", "If", "arg0.model.training"),
-   ("VSharpNetSSLEngine._do_iteration", "If", "len(output_images) > 1"),
-   ("VSharpNetSSLEngine._do_iteration", "For", "enumerate(output_images)"),
-   ("VSharpNetJSSLEngine._do_iteration", "If", "is_ssl and arg0.model.training"),
-   ("VSharpNetJSSLEngine._do_iteration", "If", "arg0.model.training"),
-   ("VSharpNetJSSLEngine._do_iteration", "If", "len(output_images) > 1"),
-   ("VSharpNetJSSLEngine._do_iteration", "For", "enumerate(output_images)")]
+  [("RIM", "For", "range(arg0.length)"),
+   ("RIM", "If", "not arg0.training"),
+   ("RIM", "If", "arg0.training or cell_idx == arg0.length - 1"),
+   ("ConjGradNet", "For", "range(arg0.num_steps)"),
+   ("RIMBlock", "For", "range(arg0.time_steps)"),
+   ("RIMBlock", "For", "enumerate(arg0.layers)"),
+   ("CIRIM", "For", "enumerate(arg0.block_list)"),
+   ("EndToEndVarNetBlock", "Comp", "torch.split(regularization_term, 2, arg0._complex_dim)"),
+   ("EndToEndVarNetBlock", "Comp", "torch.split(arg1, 2, arg0._complex_dim)"),
+   ("EndToEndVarNet", "For", "arg0.layers_list"),
+   ("RecurrentVarNet", "For", "range(arg0.num_steps)"),
+   ("VSharpNet", "For", "range(arg0.num_steps)"),
+   ("VSharpNet", "For", "range(arg0.num_steps_dc_gd)"),
+   ("VSharpNet3D", "For", "range(arg0.num_steps)"),
+   ("VSharpNet3D", "For", "range(arg0.num_steps_dc_gd)"),
+   ("JointICNet", "For", "range(arg0.num_iter)"),
+   ("JointICNet", "For", "range(arg2.size(arg0._coil_dim))"),
+   ("IterDualNet", "For", "range(arg0.num_iter)"),
+   ("IterDualNet", "For", "range(arg2.size(arg0._coil_dim))"),
+   ("LPDNet", "For", "range(arg0.num_iter)"),
+   ("CrossDomainNetwork", "For", "arg0.domain_sequence"),
+   ("CrossDomainNetwork", "Comp", "torch.split(arg2, 2, arg0._complex_dim)"),
+   ("CrossDomainNetwork", "Comp", "torch.split(arg3, 2, arg0._complex_dim)"),
+   ("MRIVarSplitNet", "For", "range(arg0.num_steps_reg)"),
+   ("MRIVarSplitNet", "For", "range(arg0.num_steps_dc)"),
+   ("MRIVarSplitNet", "For", "range(arg2.size(arg0._coil_dim))"),
+   ("KIKINet", "For", "range(arg0.num_iter)"),
+   ("SSLMRIModelEngine", "If", "arg0.model.training"),
+   ("MRIModelEngine", "If", "arg0.ndim == 2"),
+   ("MRIModelEngine", "Comp", "range(arg1.shape[3])"),
+   ("MRIModelEngine", "For", "arg1.items()"),
+   ("MRIModelEngine", "For", "range(arg2.size(arg0._coil_dim))"),
+   ("JSSLMRIModelEngine", "If", "is_ssl and arg0.model.training"),
+   ("JSSLMRIModelEngine", "If", "arg0.model.training and is_ssl"),
+   ("JSSLMRIModelEngine", "If", "arg0.model.training"),
+   ("VSharpNetSSLEngine", "If", "arg0.model.training"),
+   ("VSharpNetSSLEngine", "If", "len(output_images) > 1"),
+   ("VSharpNetSSLEngine", "For", "enumerate(output_images)"),
+   ("VSharpNetJSSLEngine", "If", "is_ssl and arg0.model.training"),
+   ("VSharpNetJSSLEngine", "If", "arg0.model.training"),
+   ("VSharpNetJSSLEngine", "If", "len(output_images) > 1"),
+   ("VSharpNetJSSLEngine", "For", "enumerate(output_images)")]
 
+/-- every recorded branch / loop is an allowed one (removing one is fine, a new kind is not) -/
 def controlOk (blockCtl siteCtl : List (String × String × String)) : Bool :=
-  blockCtl == dcBlockControl && siteCtl == dcSiteControl
+  blockCtl.all (fun r => dcBlockControl.contains r) && siteCtl.all (fun r => dcSiteControl.contains r)
 
 /-- a block *instance*: `out` is what a call answers given the instance state and the arguments, `upd` what the call
 leaves behind -/
